@@ -139,7 +139,8 @@ def _new_value(rng, tok):
     import decimal
     rule = getattr(tok, 'RULE', None)
     if rule == 'ESCAPED_STRING':
-        return 'value', rng.choice(['n', 'two\nlines', 'q"uote', 'a\n\nb\n', ''])
+        # incl. texts of one length with different line-break layouts (a "same width, nothing moves" shortcut is wrong)
+        return 'value', rng.choice(['n', 'two\nlines', 'q"uote', 'a\n\nb\n', '', 'two lines', 'tw\no\nines', 'two\nlines', 'twolines\n'])
     if rule == 'BLOCK_COMMENT':
         return rng.choice([('value', rng.choice(['x', 'x\ny', 'x\n\nz', ''])), ('indent', rng.choice(['', '  ', '\t']))])
     if rule == 'INLINE_COMMENT':
@@ -386,12 +387,16 @@ def run_documents(ctx: common.Ctx, prop_sigs, n_quick: int = 25, n_thorough: int
         store = f.token_store
         n_assign = 0
         hist = []
+        last_tok = None
         for step in range(ctx.rng.choice([3, 6, 12])):
             toks = list(store)
             cands = [t for t in toks if _new_value(ctx.rng, t) is not None]
             if not cands:
                 break
             tok = ctx.rng.choice(cands)
+            if hist and ctx.rng.random() < 0.35 and any(t is last_tok for t in cands):
+                tok = last_tok            # several assignments in a row to one token
+            last_tok = tok
             attr, val = _new_value(ctx.rng, tok)
             before = [t.raw_text for t in toks]
             i = next(k for k, t in enumerate(toks) if t is tok)
